@@ -435,6 +435,10 @@ func checkC19(c *ctx) {
 		scen{name: "merge of a clustered input of which 2 documents (4 vectors) survive, and a small input", inputs: []zh.Batch{mkBatch(520, 2, 1, "ka"), mkBatch(3, 1, 1, "kb")}, drops: [][]uint64{allBut(520, 17, 300), nil}, fields: sx.L(sx.L(sx.N(2), sx.Bool(false)))},
 		scen{name: "merge with an input of 4200 live vectors", inputs: []zh.Batch{mkBatch(2100, 2, 1, "va"), mkBatch(3, 1, 1, "vb")}, drops: [][]uint64{nil, {1}}, ivf: true, fields: sx.L(sx.L(sx.N(2), sx.Bool(true)))},
 		scen{name: "merge of a clustered input without deletions and two fully deleted small segments (a single clustered contributor)", inputs: []zh.Batch{mkBatch(2, 1, 1, "ua"), mkBatch(520, 2, 1, "ub"), mkBatch(2, 1, 1, "uc")}, drops: [][]uint64{{0, 1}, nil, {0, 1}}, ivf: true, fields: sx.L(sx.L(sx.N(1), sx.Bool(true)))})
+	{
+		// more than 32 MiB of serialized input index data in one field
+		scens = append(scens, scen{name: "merge of three inputs with more than 32 MiB of serialized index data", inputs: []zh.Batch{mkWide(6200, "xa"), mkWide(6200, "xb"), mkWide(6200, "xc")}, drops: [][]uint64{nil, {9}, nil}, ivf: true, fields: sx.L(sx.L(sx.N(3), sx.Bool(true)))})
+	}
 	ops := []string{"IndexFactory", "SetDirectMap", "Train", "AddWithIDs", "WriteIndexIntoBuffer", "ReadIndexFromBuffer", "ReconstructBatch"}
 	firstDiffers := ""
 	for _, sc := range scens {
